@@ -4,7 +4,7 @@ Decided: sign convention of gains and its coherence from their definition
 (current - best) through the improvement test, the gain messages, the stored
 neighbour gains and the arbitration (best neighbour gain and strict comparison
 follow the objective), and freshness of the current local cost (re-evaluated
-every cycle).  A mode-blind arbitration or a stale current cost lets a cycle end
+every cycle), and the go decision of a committed MGM2 pair.  A mode-blind arbitration or a stale current cost lets a cycle end
 without a move while a unilateral improvement exists.
 """
 import ast
@@ -32,6 +32,7 @@ def check(ctx: Ctx):
     ctx.rule("R-GAIN", "gain = current local cost - best local cost; improvement test and no-op candidate")
     ctx.rule("R-FRESH", "the current local cost is re-evaluated at every cycle from the neighbours' current values")
     ctx.rule("R-FLOW", "the gain that is sent, stored and arbitrated is the computed gain")
+    ctx.rule("R-GO", "an MGM2 pair that announced its coordinated gain goes whenever that gain is strictly best among the other neighbours (or there is none)")
 
     # =============================== MGM =====================================
     hv = repo.func(MGM, "MgmComputation._handle_value_message")
@@ -149,6 +150,7 @@ def check(ctx: Ctx):
               "a committed pair compares its gain with every neighbour except the partner")
     z = [s for s in hg2.node.body if isinstance(s, ast.If) and norm(s.test) == "self._potential_gain == 0"]
     ctx.check(len(z) == 1, "R-GAIN", "MGM2: a null potential gain never moves", hg2, z[0] if z else hg2.node, "gain 0 means no improvement: no move and no arbitration")
+    G.check_go_decision(ctx, hg2, "R-GO")
     # flows
     mk = [c for c in walk_no_nested(sg2.node) if isinstance(c, ast.Call) and call_name(c) == "Mgm2GainMessage"]
     ctx.check(len(mk) == 1 and norm(mk[0].args[0]) == "self._potential_gain", "R-FLOW", "MGM2: the gain sent is the potential gain", sg2, mk[0] if mk else sg2.node, "")
@@ -191,6 +193,7 @@ def check(ctx: Ctx):
 _M = "pydcop/algorithms/mgm.py"
 _M2 = "pydcop/algorithms/mgm2.py"
 VARIANTS = [
+    ("mgm2_leaf_pair_never_goes", _M2, "            if neigh_gains == [] or self._is_better_gain(", "            if neigh_gains and self._is_better_gain(", "break", "R-GO"),
     ("mgm_mode_blind_again", _M, "            if self._mode == \"min\":\n                max_neighbors = max([gain for gain, _ in gains.values()])\n                is_best = self._gain > max_neighbors\n            else:\n                max_neighbors = min([gain for gain, _ in gains.values()])\n                is_best = self._gain < max_neighbors",
      "            max_neighbors = max([gain for gain, _ in gains.values()])\n            is_best = self._gain > max_neighbors", "break", "R-MODE.d"),
     ("mgm_max_uses_max", _M, "                max_neighbors = min([gain for gain, _ in gains.values()])", "                max_neighbors = max([gain for gain, _ in gains.values()])", "break", "R-MODE.d"),
